@@ -82,19 +82,124 @@ pub struct NanField {
     pub x: f32,
 }
 
-pub const NTYPES: u32 = 11;
-pub const TYPE_NAMES: [&str; NTYPES as usize] = ["()", "u8", "f64(NaN for key 0)", "align64", "align32", "[u64;40]", "(u8,u64)", "String", "Box<i32>", "ZST struct", "struct with NaN field"];
+/// A payload whose comparison, ordering and hashing methods are all hand written, all
+/// distinguishable from one another (`ne` is not `!eq`, `lt` is not derived from
+/// `partial_cmp`, ...) and all logged: the handle types must forward each operator to the
+/// same method of the payload as `std::rc` does.
+#[derive(Clone, Debug)]
+pub struct Spy(pub i32);
+thread_local! {
+    static NOTES: std::cell::RefCell<String> = const { std::cell::RefCell::new(String::new()) };
+}
+fn note(s: &str) {
+    NOTES.with(|n| {
+        let mut n = n.borrow_mut();
+        n.push_str(s);
+        n.push(' ');
+    });
+}
+pub fn take_notes() -> String {
+    NOTES.with(|n| std::mem::take(&mut *n.borrow_mut()))
+}
+#[allow(clippy::all)]
+impl PartialEq for Spy {
+    fn eq(&self, o: &Self) -> bool {
+        note("eq");
+        self.0 == o.0
+    }
+    fn ne(&self, o: &Self) -> bool {
+        note("ne");
+        self.0 % 2 != o.0 % 2
+    }
+}
+impl Eq for Spy {}
+#[allow(clippy::all)]
+impl PartialOrd for Spy {
+    fn partial_cmp(&self, o: &Self) -> Option<std::cmp::Ordering> {
+        note("partial_cmp");
+        Some(self.0.cmp(&o.0))
+    }
+    fn lt(&self, o: &Self) -> bool {
+        note("lt");
+        self.0 % 3 < o.0 % 3
+    }
+    fn le(&self, o: &Self) -> bool {
+        note("le");
+        self.0 % 5 <= o.0 % 5
+    }
+    fn gt(&self, o: &Self) -> bool {
+        note("gt");
+        self.0 % 7 > o.0 % 7
+    }
+    fn ge(&self, o: &Self) -> bool {
+        note("ge");
+        self.0 % 4 >= o.0 % 4
+    }
+}
+#[allow(clippy::all)]
+impl Ord for Spy {
+    fn cmp(&self, o: &Self) -> std::cmp::Ordering {
+        note("cmp");
+        o.0.cmp(&self.0)
+    }
+}
+impl std::hash::Hash for Spy {
+    fn hash<H: std::hash::Hasher>(&self, state: &mut H) {
+        note("hash");
+        (self.0 ^ 0x55).hash(state);
+    }
+}
+
+/// Observations that need `Ord + Eq + Hash` on the handle type (only some payloads).
+pub trait Extra: Sized {
+    fn extra_c(_a: &cactusref::Rc<Self>, _b: &cactusref::Rc<Self>) -> String {
+        String::new()
+    }
+    fn extra_s(_a: &std::rc::Rc<Self>, _b: &std::rc::Rc<Self>) -> String {
+        String::new()
+    }
+}
+fn ord_obs<H: Ord + Eq + std::hash::Hash>(a: &H, b: &H) -> String {
+    use std::hash::{Hash, Hasher};
+    let hv = |x: &H| {
+        let mut h = std::collections::hash_map::DefaultHasher::new();
+        x.hash(&mut h);
+        h.finish()
+    };
+    format!("{:?} {} {} {:x} {}", a.cmp(b), std::ptr::eq(a.max(b), a), std::ptr::eq(a.min(b), a), hv(a), hv(a) == hv(b))
+}
+macro_rules! ord_extra {
+    ($($t:ty),*) => {$(
+        impl Extra for $t {
+            fn extra_c(a: &cactusref::Rc<Self>, b: &cactusref::Rc<Self>) -> String {
+                ord_obs(a, b)
+            }
+            fn extra_s(a: &std::rc::Rc<Self>, b: &std::rc::Rc<Self>) -> String {
+                ord_obs(a, b)
+            }
+        }
+    )*};
+}
+ord_extra!((), u8, [u64; 40], (u8, u64), String, Box<i32>, Spy);
+impl Extra for f64 {}
+impl Extra for Al64 {}
+impl Extra for Al32 {}
+impl Extra for Zst {}
+impl Extra for NanField {}
+
+pub const NTYPES: u32 = 12;
+pub const TYPE_NAMES: [&str; NTYPES as usize] = ["()", "u8", "f64(NaN for key 0)", "align64", "align32", "[u64;40]", "(u8,u64)", "String", "Box<i32>", "ZST struct", "struct with NaN field", "Spy (hand-written, logged eq/ne/lt/le/gt/ge/cmp/hash)"];
 
 macro_rules! typed_interp {
-    ($m:ident, $($p:tt)*) => {
+    ($m:ident, $x:ident, $($p:tt)*) => {
         pub mod $m {
-            use super::{Id, T};
+            use super::{take_notes, Extra, Id, T};
             use std::borrow::Borrow;
             use std::collections::BTreeMap;
             use std::fmt::Debug;
             use $($p)*::{Rc as R, Weak as Wk};
 
-            pub fn run<V: Clone + PartialEq + PartialOrd + Debug>(prog: &[T], mk: &dyn Fn(i32) -> V, log: &mut Vec<String>, on_step: &mut dyn FnMut(usize)) {
+            pub fn run<V: Clone + PartialEq + PartialOrd + Debug + Extra>(prog: &[T], mk: &dyn Fn(i32) -> V, log: &mut Vec<String>, on_step: &mut dyn FnMut(usize)) {
                 let mut hs: BTreeMap<Id, R<V>> = BTreeMap::new();
                 let mut ws: BTreeMap<Id, Wk<V>> = BTreeMap::new();
                 let align = std::mem::align_of::<V>();
@@ -180,9 +285,22 @@ macro_rules! typed_interp {
                         }
                         T::Eq(a, b) => {
                             if let (Some(x), Some(y)) = (hs.get(&a), hs.get(&b)) {
-                                log.push(format!("eq {} {} {:?} {} {}", x == y, x != y, x.partial_cmp(y), x < y, x >= y));
+                                let _ = take_notes();
+                                log.push(format!("eq {} {} {:?} {} {} {} {}", x == y, x != y, x.partial_cmp(y), x < y, x >= y, x <= y, x > y));
+                                // which payload methods ran is compared only for handles to
+                                // different allocations: for `T: Eq` std skips `T::eq`/`T::ne`
+                                // when both handles name one allocation, which changes no
+                                // result for a lawful `Eq` and is not a result of the API
+                                let calls = take_notes();
+                                if !R::ptr_eq(x, y) {
+                                    log.push(format!("eqcalls {}", calls));
+                                }
+                                let o = V::$x(x, y);
+                                let calls = take_notes();
+                                log.push(format!("ord {} | {}", o, if R::ptr_eq(x, y) { String::new() } else { calls }));
                                 let c = R::clone(x);
                                 log.push(format!("eqself {} {} {:?}", *x == c, *x != c, x.partial_cmp(&c)));
+                                let _ = take_notes();
                             }
                         }
                         T::AsPtr(h) => {
@@ -252,8 +370,8 @@ macro_rules! typed_interp {
         }
     };
 }
-typed_interp!(cactus, cactusref);
-typed_interp!(stdrc, std::rc);
+typed_interp!(cactus, extra_c, cactusref);
+typed_interp!(stdrc, extra_s, std::rc);
 
 pub fn generate(rng: &mut Rng) -> (u32, Vec<T>) {
     let ty = rng.below(NTYPES as usize) as u32;
@@ -316,7 +434,7 @@ pub fn parse_prog(t: &str) -> Result<(u32, Vec<T>), String> {
     Ok((ty, ops))
 }
 
-fn both<V: Clone + PartialEq + PartialOrd + std::fmt::Debug>(prog: &[T], mk: &dyn Fn(i32) -> V, on_step: &mut dyn FnMut(usize)) -> (Vec<String>, Vec<String>) {
+fn both<V: Clone + PartialEq + PartialOrd + std::fmt::Debug + Extra>(prog: &[T], mk: &dyn Fn(i32) -> V, on_step: &mut dyn FnMut(usize)) -> (Vec<String>, Vec<String>) {
     let mut l1 = vec![];
     let mut l2 = vec![];
     crate::alloc::sut(|| cactus::run(prog, mk, har_log(&mut l1), on_step));
@@ -342,6 +460,7 @@ pub fn run_both(ty: u32, prog: &[T], on_step: &mut dyn FnMut(usize)) -> (bool, u
         7 => both(prog, &|k| format!("s{k}"), on_step),
         8 => both(prog, &|k| Box::new(k), on_step),
         9 => both(prog, &|_| Zst, on_step),
+        11 => both(prog, &|k| Spy(k), on_step),
         _ => both(prog, &|k| NanField { tag: k as u8, x: if k == 0 { f32::NAN } else { 1.0 } }, on_step),
     };
     let _ = har(|| ());
